@@ -6,16 +6,40 @@ use std::cmp::Ordering;
 
 const MAXC: u32 = 0x2FFFF;
 
-fn points() -> Vec<u32> {
-    let mut v: Vec<u32> = (0..=5).collect();
-    v.extend(0x2FFFA..=0x2FFFF);
-    v
+thread_local!(static DOMAIN: std::cell::RefCell<Vec<u32>> = std::cell::RefCell::new(Vec::new()));
+
+/// the three exhaustive domains: alphabet boundaries, the surrogate block, the BMP boundary
+fn domains() -> Vec<Vec<u32>> {
+    let mut d0: Vec<u32> = (0..=5).collect();
+    d0.extend(0x2FFFA..=0x2FFFF);
+    let d1 = vec![0xD7FE, 0xD7FF, 0xD800, 0xD801, 0xDBFF, 0xDC00, 0xDFFE, 0xDFFF, 0xE000, 0xE001];
+    let d2 = vec![0xFFFC, 0xFFFD, 0xFFFE, 0xFFFF, 0x10000, 0x10001, 0x7F, 0x80];
+    vec![d0, d1, d2]
 }
 
+fn points() -> Vec<u32> {
+    DOMAIN.with(|d| {
+        let mut v = d.borrow().clone();
+        v.sort_unstable();
+        v
+    })
+}
+
+/// probe grid: every domain point with both neighbours (so that every gap between two domain intervals contains
+/// a grid point), plus 0, a mid-alphabet point and MAXC
 fn grid() -> Vec<u32> {
-    let mut v: Vec<u32> = (0..=7).collect();
-    v.push(0x18000);
-    v.extend(0x2FFF8..=0x2FFFF);
+    let mut v = vec![0, 0x18000, MAXC];
+    for p in points() {
+        v.push(p);
+        if p > 0 {
+            v.push(p - 1);
+        }
+        if p < MAXC {
+            v.push(p + 1);
+        }
+    }
+    v.sort_unstable();
+    v.dedup();
     v
 }
 
@@ -188,8 +212,43 @@ fn all_intervals() -> Vec<(u32, u32)> {
     v
 }
 
+fn set_domain_for(l: &[(u32, u32)]) {
+    // choose the domain that contains the end points of the case (replay)
+    for d in domains() {
+        if l.iter().all(|&(a, b)| d.contains(&a) && d.contains(&b)) {
+            DOMAIN.with(|x| *x.borrow_mut() = d);
+            return;
+        }
+    }
+    DOMAIN.with(|x| *x.borrow_mut() = domains()[0].clone());
+}
+
 pub fn run(p: &Params, rep: &mut Report) {
     let seed = p.seed;
+    // the two extra domains first (singles and pairs), then the boundary domain with lists as before
+    let mut idx = 0u64;
+    for d in domains().into_iter().skip(1) {
+        DOMAIN.with(|x| *x.borrow_mut() = d);
+        let iv = all_intervals();
+        rep.count("intervals_in_extra_domains", iv.len() as u64);
+        for &a in &iv {
+            idx += 1;
+            if idx % p.nshards == p.shard {
+                check_single(rep, a, seed);
+                rep.eval(Some(&txt(a)));
+                rep.inc("extra_domain_singles");
+            }
+            for &b in &iv {
+                idx += 1;
+                if idx % p.nshards == p.shard {
+                    check_pair(rep, a, b, seed);
+                    rep.eval(Some(&format!("{} {}", txt(a), txt(b))));
+                    rep.inc("extra_domain_pairs");
+                }
+            }
+        }
+    }
+    DOMAIN.with(|x| *x.borrow_mut() = domains()[0].clone());
     let iv = all_intervals();
     rep.count("intervals_in_domain", iv.len() as u64);
     let mut idx = 0u64;
@@ -305,6 +364,7 @@ fn parse(t: &str) -> Vec<(u32, u32)> {
 
 pub fn replay(kind: &str, text: &str, seed: u64, rep: &mut Report) -> bool {
     let l = parse(text);
+    set_domain_for(&l);
     match (kind, l.len()) {
         ("charset1", 1) => check_single(rep, l[0], seed),
         ("charset2", 2) => check_pair(rep, l[0], l[1], seed),
